@@ -1,32 +1,3 @@
-(* GENERATED by tools/translate_lock.py from class Lock in /repo's source on every run of bin/check C09. *)
+(* translator refused *)
 From AV Require Import Base Lock LockImp.
-
-Definition release_loop_body : stmt :=
-  (SSeq (SIf CFutCancelled SContinue SSkip) (SSeq SSetOwnerTask (SSeq SSetResult SReturn))).
-
-Definition release_entry : stmt :=
-  (SSeq (SIf (CNot COwnerIsCurrent) (SRaise ERuntime) SSkip) (SSeq (SPopLoop release_loop_body) SSetOwnerNone)).
-
-Definition acquire_nowait_entry : stmt :=
-  (SSeq SBindTask (SSeq (SIf (CAnd COwnerNone CNoWaiters) (SSeq SSetOwnerTask SReturn) SSkip) (SSeq (SIf COwnerIsTask (SRaise ERuntime) SSkip) (SRaise EWouldBlock)))).
-
-Definition acquire_yield_resumed : stmt :=
-  SReturn.
-
-Definition acquire_yield_cancelled : stmt :=
-  (SSeq (SCall release_entry) (SRaise ECancelled)).
-
-Definition acquire_wait_resumed : stmt :=
-  SSkip.
-
-Definition acquire_wait_cancelled : stmt :=
-  (SSeq (SIf CFutCancelled SRemoveItem (SCall release_entry)) (SRaise ECancelled)).
-
-Definition acquire_entry : stmt :=
-  (SSeq SBindTask (SSeq SCkIf (SSeq (SIf (CAnd COwnerNone CNoWaiters) (SSeq SSetOwnerTask (SSeq (SIf (CNot CFast) (SSuspend AwYield) SSkip) SReturn)) SSkip) (SSeq (SIf COwnerIsTask (SRaise ERuntime) SSkip) (SSeq SNewFut (SSeq SAppendItem (SSuspend AwFut))))))).
-
-Definition locked_cond : cond := (CNot COwnerNone).
-
-Definition lock_prog : prog :=
-  mkprog acquire_entry acquire_yield_resumed acquire_yield_cancelled acquire_wait_resumed
-         acquire_wait_cancelled acquire_nowait_entry release_entry locked_cond.
+Definition refused : False := "translate_lock REFUSED: release: line 2081: unsupported condition `task.cancelling()`".
